@@ -1538,7 +1538,7 @@ def shrink_tie_case(P, prop_id, kind, args, prof, work, budget_s=12.0, max_runs=
     args = list(args)
     last = args[-1]
     if kind in ("req", "resp"):
-        parts = [bytes.fromhex(x) for x in last.split(",")] if last not in ("", ".") else [b""]
+        parts = [b"" if x in ("", ".") else bytes.fromhex(x) for x in last.split(",")]
     elif kind in ("dec", "txt", "pipereq", "piperesp", "rtreq", "rtresp"):
         parts = [bytes.fromhex(last)] if last not in ("", ".") else [b""]
     else:
@@ -1690,7 +1690,11 @@ def run(prop_id, tier, seed, replay=None):
                               "the theorems of this property are about the model; on this case the code no longer behaves like "
                               "the model, so they no longer transfer; the property's own relation found no failing input")}
         if not replay and len(ids) == 1:
-            small, nruns = shrink_tie_case(P, prop_id, ctx.meta[ids[0]]["kind"], ctx.meta[ids[0]]["args"], prof, work)
+            try:
+                small, nruns = shrink_tie_case(P, prop_id, ctx.meta[ids[0]]["kind"], ctx.meta[ids[0]]["args"], prof, work)
+            except Exception as e:       # minimisation is a convenience: it must never change the verdict
+                small, nruns = ctx.meta[ids[0]]["args"], 0
+                log(f"[{prop_id}] (minimisation skipped: {type(e).__name__})")
             if small != ctx.meta[ids[0]]["args"]:
                 violation["minimized"] = {"kind": ctx.meta[ids[0]]["kind"], "args": small, "runs": nruns,
                                           "note": "smaller input on which model and implementation still differ (delta debugging)"}
